@@ -258,6 +258,9 @@ impl Expr {
 }
 
 impl Display for Expr {
+    /// The text of an expression identifies it: it is the key of the per-row value cache,
+    /// of grouping and ordering, and the column name in the output. Two different expressions
+    /// must therefore never be printed alike.
     fn fmt(&self, fmt: &mut Formatter) -> fmt::Result {
         use std::fmt::Write;
 
@@ -271,9 +274,43 @@ impl Display for Expr {
             if let Some(ref left) = self.left {
                 fmt.write_str(&left.to_string())?;
             }
+            if let Some(ref args) = self.args {
+                for arg in args {
+                    fmt.write_str(", ")?;
+                    fmt.write_str(&arg.to_string())?;
+                }
+            }
             fmt.write_char(')')?;
-        } else if let Some(ref left) = self.left {
+
+            return Ok(());
+        }
+
+        let operator = if let Some(ref arithmetic_op) = self.arithmetic_op {
+            Some(match arithmetic_op {
+                ArithmeticOp::Add => String::from("+"),
+                ArithmeticOp::Subtract => String::from("-"),
+                ArithmeticOp::Multiply => String::from("*"),
+                ArithmeticOp::Divide => String::from("/"),
+                ArithmeticOp::Modulo => String::from("%"),
+            })
+        } else if let Some(ref logical_op) = self.logical_op {
+            Some(format!("{:?}", logical_op).to_uppercase())
+        } else {
+            self.op.as_ref().map(|op| format!("{:?}", op))
+        };
+
+        if operator.is_some() {
+            fmt.write_char('(')?;
+        }
+
+        if let Some(ref left) = self.left {
             fmt.write_str(&left.to_string())?;
+        }
+
+        if let Some(ref operator) = operator {
+            fmt.write_char(' ')?;
+            fmt.write_str(operator)?;
+            fmt.write_char(' ')?;
         }
 
         if let Some(ref field) = self.field {
@@ -286,6 +323,10 @@ impl Display for Expr {
 
         if let Some(ref right) = self.right {
             fmt.write_str(&right.to_string())?;
+        }
+
+        if operator.is_some() {
+            fmt.write_char(')')?;
         }
 
         Ok(())
